@@ -10,12 +10,14 @@ import (
 	"verif/harness/props/c05"
 	"verif/harness/props/c06"
 	"verif/harness/props/c07"
+	"verif/harness/props/c08"
 	"verif/harness/props/c09"
 	"verif/harness/props/c10"
 	"verif/harness/props/c11"
 	"verif/harness/props/c12"
 	"verif/harness/props/c13"
 	"verif/harness/props/c14"
+	"verif/harness/props/c15"
 	"verif/harness/props/c17"
 	"verif/harness/props/c18"
 	"verif/harness/props/c19"
@@ -32,12 +34,14 @@ func Specs() map[string]*core.Spec {
 		c05.Spec(),
 		c06.Spec(),
 		c07.Spec(),
+		c08.Spec(),
 		c09.Spec(),
 		c10.Spec(),
 		c11.Spec(),
 		c12.Spec(),
 		c13.Spec(),
 		c14.Spec(),
+		c15.Spec(),
 		c17.Spec(),
 		c18.Spec(),
 		c19.Spec(),
